@@ -39,7 +39,7 @@ thread that reaches the gate after another thread began closing get ConnectionNo
 a socket that is being closed under it. -/
 theorem close_marks_closed_first : Gen.h1CloseMarksClosedFirst = true := by decide
 
-/-- **C08.retire_only_unassigned** — a pass closes a connection as surplus, or evicts one to make room, only if no request
+/-- **C08.retire_only_unassigned** — a pass closes a connection as surplus or as abandoned, or evicts one to make room, only if no request
 has been handed that connection (`reserved` = the connections assigned before the pass plus those assigned in it): a thread
 that has been given an idle connection and has not started on it yet cannot have it closed under it by another thread's pass.
 (Expired connections are still closed; the request then finds CLOSED at the gate - `close_marks_closed_first`.) -/
@@ -49,8 +49,9 @@ theorem retire_only_unassigned (cfg : Cfg) (hfix : cfg.countIdleOnly = true) (re
       ∃ i, (assignOne cfg s r).1.closing = s.closing ++ [(i, .room)] ∧ isReserved s.reserved i = false) := by
   constructor
   · intro e he hne
-    rcases C09.close_reasons cfg hfix res s e he with h | ⟨k, _, _, h3, _⟩
+    rcases C09.close_reasons cfg hfix res s e he with h | ⟨k, _, _, h3, _⟩ | ⟨_, _, h3⟩
     · exact absurd h.1 hne
+    · exact h3
     · exact h3
   · rcases C09.eviction_reason cfg s r with h | ⟨i, h1, _, _, h4, _⟩
     · exact Or.inl h
